@@ -147,6 +147,15 @@ func c18xrun(intervalMs, k int) string {
 		return "not-an-xmpp-transport"
 	}
 	xt.Config.ConnectTimeout = 0
+	if k%2 == 0 {
+		// the transport has had an earlier life (a client keeps ONE transport over its connections): a connection that
+		// was closed - by Disconnect, after a failed attempt, after an earlier outage
+		pre := &deadConn{failPing: 1000}
+		pre.data = []byte("<?xml version='1.0'?><stream:stream xmlns='jabber:client' xmlns:stream='http://etherx.jabber.org/streams' version='1.0' id='s0'>")
+		pre.rng, pre.max, pre.closed = rand.New(rand.NewSource(1)), 64, make(chan struct{})
+		xmpp.VerifXMPPTransportSetConn(xt, pre)
+		xt.Close()
+	}
 	dc := &deadConn{failPing: k}
 	dc.data = []byte("<?xml version='1.0'?><stream:stream xmlns='jabber:client' xmlns:stream='http://etherx.jabber.org/streams' version='1.0' id='s1'>")
 	dc.rng = rand.New(rand.NewSource(int64(k)))
